@@ -76,6 +76,7 @@ type State struct {
 	choicePos int
 	guardOf map[int]string // object -> mutex key that guards it (lockset)
 	allocFn map[int]*ssa.Function
+	model   Model // a satisfying assignment of pc (nil: none cached)
 	stubCalls int
 	imprecise bool
 	unwind  int
@@ -86,7 +87,8 @@ type State struct {
 }
 
 type forkSignal struct {
-	cond *Term
+	cond   *Term
+	mt, mf Model
 }
 type forkValuesSignal struct {
 	t    *Term
@@ -161,6 +163,7 @@ func (st *State) clone() *State {
 		n.heldNames[k] = v
 	}
 	n.objNames = st.objNames
+	n.model = st.model
 	if st.allocFn != nil {
 		n.allocFn = make(map[int]*ssa.Function, len(st.allocFn))
 		for k, v := range st.allocFn {
@@ -218,6 +221,42 @@ func (e *Exec) feasible(st *State, cond *Term) Result {
 	return r
 }
 
+// feasibleM is feasible that also returns a model of pc ∧ cond on sat.
+func (e *Exec) feasibleM(st *State, cond *Term) (Result, Model) {
+	if cond.IsFalse() {
+		return Unsat, nil
+	}
+	r, m := e.sol.Check(st.pc, cond, e.modelVars())
+	if r != Sat {
+		m = nil
+	}
+	return r, m
+}
+
+// modelVars: the scalar input variables (evaluable part of a model).
+func (e *Exec) modelVars() map[string]*Term {
+	if len(e.c.vars) > modelVarLimit {
+		return nil // too many variables: model caching would cost more than it saves
+	}
+	w := make(map[string]*Term, len(e.c.vars))
+	for k, t := range e.c.vars {
+		if !t.sort.IsArray() {
+			w[k] = t
+		}
+	}
+	return w
+}
+
+// extendPC appends t to the path condition, keeping the cached model only if it satisfies t.
+func (e *Exec) extendPC(st *State, t *Term) {
+	st.pc = append(st.pc, t)
+	if st.model != nil {
+		if v, ok := evalTerm(t, st.model); !ok || v != 1 {
+			st.model = nil
+		}
+	}
+}
+
 // decide returns the truth value of cond on this path, forking if both are possible.
 func (e *Exec) decide(st *State, cond *Term) bool {
 	if cond.IsConst() {
@@ -232,10 +271,35 @@ func (e *Exec) decide(st *State, cond *Term) bool {
 	if e.pure > 0 {
 		panic(impureSignal{"symbolic decision"})
 	}
-	rt := e.feasible(st, cond)
-	rf := e.feasible(st, e.c.Not(cond))
+	var rt, rf Result
+	var mt, mf Model
+	known := false
+	if st.model != nil {
+		if v, ok := evalTerm(cond, st.model); ok {
+			known = true
+			if v == 1 {
+				rt, mt = Sat, st.model
+				rf, mf = e.feasibleM(st, e.c.Not(cond))
+			} else {
+				rf, mf = Sat, st.model
+				rt, mt = e.feasibleM(st, cond)
+			}
+			e.res.ModelHits++
+		}
+	}
+	if !known {
+		rt, mt = e.feasibleM(st, cond)
+		if rt == Unsat {
+			rf, mf = Sat, st.model // pc is feasible, so the other side is
+			if st.model == nil {
+				rf, mf = e.feasibleM(st, e.c.Not(cond))
+			}
+		} else {
+			rf, mf = e.feasibleM(st, e.c.Not(cond))
+		}
+	}
 	if os.Getenv("GOSMT_DEBUG") != "" {
-		fmt.Fprintf(os.Stderr, "decide %s at %s: true:%v false:%v\n  pc=%v\n", cond, e.posStr(), rt, rf, st.pc)
+		fmt.Fprintf(os.Stderr, "decide %s at %s: true:%v false:%v\n", cond, e.posStr(), rt, rf)
 	}
 	if rt == Unknown || rf == Unknown {
 		st.imprecise = true
@@ -246,7 +310,7 @@ func (e *Exec) decide(st *State, cond *Term) bool {
 		if st.tolerant > 0 {
 			panic(e.abort("symbolic branch during package initialisation"))
 		}
-		panic(forkSignal{cond})
+		panic(forkSignal{cond: cond, mt: mt, mf: mf})
 	case rt != Unsat:
 		st.decided.m[cond.id] = 1
 		return true
@@ -312,7 +376,20 @@ func (e *Exec) posStr() string {
 	if e.curInstr == nil {
 		return "?"
 	}
-	p := e.prog.Fset.Position(e.curInstr.Pos())
+	pos := e.curInstr.Pos()
+	if ifi, ok := e.curInstr.(*ssa.If); ok && !pos.IsValid() {
+		pos = ifi.Cond.Pos()
+		if !pos.IsValid() {
+			// e.g. a comparison: use the position of its first operand's instruction
+			if b, ok := ifi.Cond.(*ssa.BinOp); ok {
+				pos = b.X.Pos()
+				if !pos.IsValid() {
+					pos = b.Y.Pos()
+				}
+			}
+		}
+	}
+	p := e.prog.Fset.Position(pos)
 	fn := ""
 	if e.curInstr.Parent() != nil {
 		fn = e.curInstr.Parent().String()
@@ -372,6 +449,11 @@ func (e *Exec) checkPanic(st *State, cond *Term, what string) {
 		st.imprecise = true
 		e.res.note("panic check unknown: " + what + " at " + e.posStr())
 	}
+	if r == Unsat {
+		// cannot panic here: remember, nothing to add to the path condition
+		st.decided.m[key] = 1
+		return
+	}
 	if r == Sat {
 		if e.ob.PanicsOK {
 			// the harness says panics of the code under test are not its subject
@@ -384,11 +466,19 @@ func (e *Exec) checkPanic(st *State, cond *Term, what string) {
 	}
 	// continue on the non-panicking side
 	nc := e.c.Not(cond)
-	r2 := e.feasible(st, nc)
+	if st.model != nil {
+		if v, ok := evalTerm(nc, st.model); ok && v == 1 {
+			st.pc = append(st.pc, nc)
+			st.decided.m[key] = 1
+			return
+		}
+	}
+	r2, m2 := e.feasibleM(st, nc)
 	if r2 == Unsat {
 		panic(deadSignal{"panic (always): " + what})
 	}
 	st.pc = append(st.pc, nc)
+	st.model = m2
 	st.decided.m[key] = 1
 }
 
@@ -590,10 +680,17 @@ func (e *Exec) runTo(st *State, stopDepth int, work *[]*State) (finished bool) {
 				a.decided.m[s.cond.id] = 1
 				b.pc = append(b.pc, e.c.Not(s.cond))
 				b.decided.m[s.cond.id] = 0
+				a.model, b.model = s.mt, s.mf
 				e.res.Forks++
+				if os.Getenv("GOSMT_PROFILE") != "" {
+					e.res.note("fork at " + e.posStr())
+				}
 				*work = append(*work, b, a)
 			case forkValuesSignal:
 				e.res.Forks += len(s.vals) - 1
+				if os.Getenv("GOSMT_PROFILE") != "" {
+					e.res.note(fmt.Sprintf("value-fork x%d (%s) at %s", len(s.vals), s.why, e.posStr()))
+				}
 				for i := len(s.vals) - 1; i >= 0; i-- {
 					var n *State
 					if i == 0 {
@@ -601,6 +698,7 @@ func (e *Exec) runTo(st *State, stopDepth int, work *[]*State) (finished bool) {
 					} else {
 						n = st.clone()
 					}
+					n.model = nil
 					n.pc = append(n.pc, e.c.Eq(s.t, e.c.Const(s.t.sort.w, s.vals[i])))
 					n.decided.m[s.t.id] = s.vals[i]
 					*work = append(*work, n)
@@ -1178,3 +1276,11 @@ func (e *Exec) splitDepth() int {
 	}
 	return e.cfg.SplitDepth
 }
+
+var modelVarLimit = func() int {
+	n := 40
+	if s := os.Getenv("GOSMT_MODELVARS"); s != "" {
+		fmt.Sscanf(s, "%d", &n)
+	}
+	return n
+}()
